@@ -50,6 +50,10 @@ fn copy_atomic(src: &Path, dst: &Path) -> std::io::Result<()> {
     tmp.push(".copia-tmp");
     let tmp = PathBuf::from(tmp);
     std::fs::copy(src, &tmp)?;
+    // Flush the staged bytes before the rename publishes them: the archive that
+    // records this file is written (and fsync'ed) only after every delivery, so
+    // the data must not still be in the page cache when the record hits the disk.
+    std::fs::File::open(&tmp)?.sync_all()?;
     std::fs::rename(&tmp, dst)
 }
 
